@@ -15,7 +15,7 @@ import (
 // Both go through Mapper.Read/Write only; no machine cycle elapses between a write and the reads.
 
 // machine states the sweeps start from
-var busStates = []string{"power-on", "lcd-off", "lcd-off+apu-off", "after-busy-rom", "mbc1-ram-enabled", "ch3-playing", "dma-in-flight", "dacs-on-idle", "dac3-on-fresh", "lcd-off+all-requested", "keys-held"}
+var busStates = []string{"power-on", "lcd-off", "lcd-off+apu-off", "after-busy-rom", "mbc1-ram-enabled", "ch3-playing", "dma-in-flight", "dacs-on-idle", "dac3-on-fresh", "lcd-off+all-requested", "keys-held", "mbc2-ram-enabled", "mbc3-ram-enabled", "mbc5-ram-enabled"}
 
 func busMachine(state string, repo string) (*machine.M, ref.CartKind) {
 	kind := ref.KNone
@@ -37,6 +37,18 @@ func busMachine(state string, repo string) (*machine.M, ref.CartKind) {
 	case "mbc1-ram-enabled":
 		m = machine.New(machine.Image(0x03, 2, 3, 8), machine.Opts{})
 		kind = ref.KMBC1
+		m.Map.Write(0x0000, 0x0a)
+	case "mbc2-ram-enabled":
+		m = machine.New(machine.Image(0x06, 2, 0, 8), machine.Opts{})
+		kind = ref.KMBC2
+		m.Map.Write(0x0000, 0x0a)
+	case "mbc3-ram-enabled":
+		m = machine.New(machine.Image(0x13, 2, 3, 8), machine.Opts{})
+		kind = ref.KMBC3
+		m.Map.Write(0x0000, 0x0a)
+	case "mbc5-ram-enabled":
+		m = machine.New(machine.Image(0x1b, 2, 3, 8), machine.Opts{})
+		kind = ref.KMBC5
 		m.Map.Write(0x0000, 0x0a)
 	default:
 		m = machine.New(machine.ROMOnly(), machine.Opts{})
@@ -472,7 +484,7 @@ func init() {
 			c.R.Assumptions = []string{"quick: every address FE00-FFFF, every 0x100-aligned address +-1 elsewhere and every region boundary +-1; thorough: all 65,536 addresses"}
 		}
 		vals := []uint8{0x00, 0xff, 0x55, 0xaa, 0x01, 0x80, 0x0a, 0xe5}
-		explore.Product(c.R, "write-effect-sets", explore.PartOpt{Bound: "single write, full-space diff", Domain: "11 machine states (FF10-FF3F: every write from the state itself); plus FF10-FF3F x 8 values each written from a busy APU (all channels playing, length counters at 1, second half of a frame-sequencer period)"},
+		explore.Product(c.R, "write-effect-sets", explore.PartOpt{Bound: "single write, full-space diff", Domain: "14 machine states, four of them with a cartridge controller and its RAM enabled (MBC1, MBC2, MBC3, MBC5) (FF10-FF3F: every write from the state itself); plus FF10-FF3F x 8 values each written from a busy APU (all channels playing, length counters at 1, second half of a frame-sequencer period)"},
 			func(yield func(c07Case) bool) {
 				// sound registers from a busy APU, every write from the state itself
 				for lo := 0xff10; lo < 0xff40; lo += 4 {
